@@ -1268,8 +1268,7 @@ class Corr:
         return self ** 0.5
 
     def log(self):
-        newcontent = [None if _check_for_none(self, item) else np.log(item) for item in self.content]
-        return Corr(newcontent, prange=self.prange)
+        return self._apply_func_to_corr(np.log)
 
     def exp(self):
         newcontent = [None if _check_for_none(self, item) else np.exp(item) for item in self.content]
